@@ -390,7 +390,9 @@ pub fn run(rng: &mut Rng, n: usize, rep: &mut Report) {
                     delev_sum_lower += (d - cnt).max(0);
                     rep.bump("delev_metered_tx");
                     if let Some(lim) = daily_limit {
-                      if delev_sum_lower > lim as i128 {
+                      // (judged on transactions that took something out: a bracket without a withdrawal is not metered, even
+                      // when a limit configured late in the day already lies below what left before it existed)
+                      if out > 0 && delev_sum_lower > lim as i128 {
                         rep.fail(format!(
                             "C12 forced deleverages withdrew at least {} whole dollars within one day under a daily limit of {} (this transaction alone moved {} tokens worth {} dollars out of the collateral vault): {:?}",
                             delev_sum_lower, lim, out, d, tx
